@@ -120,10 +120,12 @@ Definition after_return (w : world) (t : tid) (p : pcT) (r : Z) : world :=
   | MonLockP => finish w t 0
   | MonTryP => finish w t (b2z (r =? 0))
   | MonUnlockP => finish w t 0
-  (* Monitor::wait : for(;;) { cond_(timed)wait; [if rc != 0 return false;] if(signaled) { signaled = false; return true; } } *)
+  (* Monitor::wait : for(;;) { rc = cond_(timed)wait; if(signaled) { signaled = false; return true; } [if rc != 0 return false;] }
+     the flag is looked at whatever the return code of the timed wait (a timed-out waiter may have consumed the signal) *)
   | MonWaitCond dl =>
-      if timed dl && negb (r =? 0) then finish_false w t
-      else if monf w then finish (set_monf w false) t 1 else goto w t (MonWaitCond dl)
+      if monf w then finish (set_monf w false) t 1
+      else if timed dl && negb (r =? 0) then finish_false w t
+      else goto w t (MonWaitCond dl)
   (* Monitor::set : lock; signaled = true; unlock; signal *)
   | MonSetLock =>
       goto (set_marks (emit (set_monf w true) (EvMonSet t))
@@ -222,6 +224,7 @@ Definition step (w : world) (mv : move) : world :=
           end
       | _ => w
       end
+  | TimeoutSteal t => set_ps w (prim_timeout_steal (ps w) t)
   | Clock n => set_ps w (prim_clock (ps w) n)
   | Rotate c => set_ps w (prim_rotate (ps w) c)
   end.
